@@ -498,6 +498,39 @@ func (s *Server) exec(cs *connState, name string, args [][]byte) resp.Reply {
 		}
 		s.propagate(db, s.full(name, args)...)
 		return resp.Int(n)
+	case "zrangebyscore":
+		if len(args) < 3 {
+			return errArity(name)
+		}
+		lo, ok1 := parseScore(args[1])
+		hi, ok2 := parseScore(args[2])
+		if !ok1 || !ok2 {
+			return resp.Err("ERR min or max is not a float")
+		}
+		e := s.lookup(db, args[0])
+		if e == nil {
+			return resp.Array{}
+		}
+		if e.V.Type != "zset" {
+			return errWrongType
+		}
+		var ms []string
+		for m, f := range e.V.ZSet {
+			if f >= lo && f <= hi {
+				ms = append(ms, m)
+			}
+		}
+		sort.Slice(ms, func(a, b int) bool {
+			if e.V.ZSet[ms[a]] != e.V.ZSet[ms[b]] {
+				return e.V.ZSet[ms[a]] < e.V.ZSet[ms[b]]
+			}
+			return ms[a] < ms[b]
+		})
+		out := resp.Array{}
+		for _, m := range ms {
+			out = append(out, resp.Bulk(m))
+		}
+		return out
 	case "zrem":
 		e := s.lookup(db, args[0])
 		if e == nil {
